@@ -11,6 +11,7 @@ import (
 	"os"
 	"sort"
 	"strings"
+	"time"
 
 	"golang.org/x/tools/go/packages"
 	"golang.org/x/tools/go/ssa"
@@ -44,6 +45,9 @@ const (
 	pkgCoreV1     = "k8s.io/api/core/v1"
 	pkgMetaV1     = "k8s.io/apimachinery/pkg/apis/meta/v1"
 )
+
+// ssaBodyDeps: dependency packages whose function bodies are built (callee summaries).
+var ssaBodyDeps = map[string]bool{pkgIntstr: true}
 
 // expectedPkgs must all be present in the loaded program (anchor packages).
 var expectedPkgs = []string{
@@ -86,6 +90,7 @@ func loadEnv() []string {
 // Load loads the repository at dir. tags is an optional comma separated build tag list;
 // extraEnv (e.g. GOOS=darwin) is appended to the go list environment.
 func Load(dir, tags string, extraEnv ...string) (*Prog, error) {
+	t0 := time.Now()
 	cfg := &packages.Config{
 		Mode:  packages.LoadAllSyntax,
 		Dir:   dir,
@@ -132,8 +137,17 @@ func Load(dir, tags string, extraEnv ...string) (*Prog, error) {
 	}
 	sort.Slice(p.Repo, func(i, j int) bool { return p.Repo[i].PkgPath < p.Repo[j].PkgPath })
 
+	t1 := time.Now()
 	prog, _ := ssautil.AllPackages(initial, ssa.BuilderMode(0))
-	prog.Build()
+	// Function bodies are built for the repository's packages and for the few dependency
+	// packages whose functions the rules summarise; other dependencies keep their signatures only.
+	for path, pk := range p.All {
+		if p.IsRepoPkg(path) || ssaBodyDeps[path] {
+			if sp := prog.Package(pk.Types); sp != nil {
+				sp.Build()
+			}
+		}
+	}
 	p.SSA = prog
 	for fn := range ssautil.AllFunctions(prog) {
 		if len(fn.Blocks) > 0 {
@@ -142,6 +156,9 @@ func Load(dir, tags string, extraEnv ...string) (*Prog, error) {
 				p.nRepoFns++
 			}
 		}
+	}
+	if os.Getenv("EDS_TIMING") != "" {
+		fmt.Fprintf(os.Stderr, "timing: load+typecheck %.1fs, ssa %.1fs\n", t1.Sub(t0).Seconds(), time.Since(t1).Seconds())
 	}
 	return p, nil
 }
